@@ -3,6 +3,7 @@ import MorfuseModel.Emit.Master
 import MorfuseModel.Emit.MasterLemmas
 import MorfuseModel.Emit.Fixup
 import MorfuseModel.Emit.ArenaFits
+import MorfuseModel.Emit.SimFits
 /-!
 # C01 — compilation is total: any source text is accepted or cleanly rejected
 
@@ -182,6 +183,43 @@ theorem C01_code_fits_partial (s : St) (bs : List Nat) (k : Nat) :
       rw [this]
     · unfold St.moveFwd; simp [hc]
     · unfold St.moveBack; simp [hc]
+
+/-- **The code fits, for the class `Node.plain`** (second partial result towards `C01_code_fits`).  For **every** tree of
+the decidable class `Node.plain` — no `try`, no `switch` (their counting sub-emitters), no unary minus (its constant
+folding reads code bytes back through the 32-byte ring), no read of a plain listener variable (`rd = 0`: the only place
+where the two passes can take different branches, the `LOAD_x_VAR → LOAD_STORE_x_VAR` fusion); everything else is in:
+labels with parameters, assignments to variables / fields / array elements, `if`, `if/else`, `while`, `for`, `do`,
+`break`, `continue`, `&&`, `||`, `!`, all binary and the other unary operators, literals of every width, strings, vectors,
+arrays, constant arrays, built-in getters, script and method commands with any number of arguments — and both developer
+modes: whenever the counting pass returns, no write of the program pass goes past the buffer of `progLength` bytes that
+`Preallocate` made from the counting pass's result (the model never yields `Ub.codeOverflow`; hook H3 kind 1).
+
+The proof is the simulation `C01_code_fits_partial` lacked: a coupling `Rel` of a counting state and a program state
+(same decisions readable from the previous-opcode windows, compared by depth so that the fusion's one-slot shift does
+not matter: `Emit/Window.lean`; `progLength` of the one = gross bytes of the other; code position ≤ gross bytes; equal
+fix-up counters and flags), kept by every primitive in lock-step (`Emit/Sim.lean`) and by every constructor of the class
+(`Emit/SimEmit*.lean`), plus monotonicity of `progLength` (`Emit/Mono.lean`, all trees).  *Still missing for the full
+statement:* the mixed fusion case (one lemma: both branches account for 9 bytes and leave untested tops), the
+ring/buffer agreement for `EvalPrevValue`, and "a counting sub-emitter never reports a code overflow". -/
+theorem C01_code_fits_partial2 (dev : Bool) (root : Node) (hpl : root.plain = true) (c : St)
+    (hc : emitRoot root (St.init true) = .ok c) :
+    match preallocate dev c.info with
+    | .ok s => emitRoot root s ≠ .error (.ub .codeOverflow)
+    | .error _ => True := by
+  have h := plain_code_fits dev root hpl c hc
+  cases hp : preallocate dev c.info with
+  | ok s => rw [hp] at h; exact h
+  | error e => trivial
+
+set_option maxRecDepth 100000 in
+/-- a realistic program of the class:
+`local.i = 0; while (local.i < 5) { if (local.i == 3) { break }; println "x" 7; local.i = 1 }` with the variable reads
+replaced by a built-in getter (`rd = 1`) -/
+example : (Node.list (.cons (.assign (.field 1 1 0 0 (.listener 2)) (.int 0))
+    (.cons (.while_ (.f2 90 (.field 2 2 1 0 (.listener 2)) (.int 5))
+      (.list (.cons (.if_ (.f2 88 (.field 2 2 1 0 (.listener 2)) (.int 3)) (.list (.cons .brk .nil)))
+        (.cons (.cmd 3 true (.cons (.str 4) (.cons (.int 7) .nil)))
+          (.cons (.assign (.field 1 1 0 0 (.listener 2)) (.int 1)) .nil)))) .none) .nil))).plain = true := by decide
 
 /-- non-vacuity: a one-byte buffer takes one byte and refuses the second -/
 example : ((({ St.init false with progLen := 1, buf := Tbl.mk' 1 0 } : St).write [7]).toOption.map (·.pos)) = some 1 := by
